@@ -1,6 +1,8 @@
 package main
 
 import (
+	"go/types"
+	"math/big"
 	"fmt"
 	"go/ast"
 	"go/token"
@@ -172,8 +174,9 @@ func runC20(c *Ctx) {
 	hm := c.Func("kv/aof", "DiskKV", "handleMutation")
 	start := c.Func("kv/aof", "DiskKV", "Start")
 	replay := c.Func("kv/aof", "DiskKV", "replayLogs")
-	appendCalls := start.CallsTo(true, "kv/aof.DiskKV.appendLog")
-	c.Floor("appendLog call sites in the writer", len(appendCalls), 1)
+	appendSites := aofWriterSites(c, "kv/aof.DiskKV.appendLog")
+	c.Floor("appendLog call sites in the writer", len(appendSites), 1)
+	_ = start
 	// kinds and the memory method applied
 	kinds := map[string]string{}
 	// read from the path facts at each store call (switch and if-chain alike)
@@ -206,15 +209,15 @@ func runC20(c *Ctx) {
 			// (i) validation cuts appendLog
 			okValidate := false
 			var det []string
-			for _, ac := range appendCalls {
-				g := start.enclosing(ac)
+			for _, site := range appendSites {
+				g, ac := site.g, site.call
 				fs := g.FactsAt(ac)
 				for _, fa := range fs.Facts {
 					if fa.Kind != FCallOK || fa.Sem {
 						continue
 					}
 					v := c.FnOfObj(g.Callee(fa.Call))
-					if v == nil || v.Pkg != start.Pkg {
+					if v == nil || v.Pkg != g.Pkg {
 						continue
 					}
 					if validatorRejects(v, k, s) {
@@ -236,7 +239,7 @@ func runC20(c *Ctx) {
 					}
 				}
 			}
-			c.Ob("wal-discipline", fmt.Sprintf("%s#rejected-with-%s-never-durable", k, s), appendCalls[0].Pos(), okValidate || okReplay,
+			c.Ob("wal-discipline", fmt.Sprintf("%s#rejected-with-%s-never-durable", k, s), appendSites[0].call.Pos(), okValidate || okReplay,
 				fmt.Sprintf("memory.%s rejects by state with %s; the mutation is appended to the log before it is applied and replay aborts on any rejection, so it must be refused before appendLog (or tolerated by replay). Otherwise: crash after log.Write and before TruncateBack -> the store never opens again. %v", m, s, det))
 		}
 	}
@@ -265,30 +268,52 @@ func runC20(c *Ctx) {
 		return true
 	})
 	rb := c.Func("kv/aof", "DiskKV", "rollbackOne")
-	var dec *ast.AssignStmt
-	ast.Inspect(rb.Body, func(n ast.Node) bool {
-		if as, ok := n.(*ast.AssignStmt); ok && len(as.Lhs) == 1 && rb.FieldKey(as.Lhs[0]) == "kv/aof.DiskKV.counter" && as.Tok == token.SUB_ASSIGN {
-			dec = as
-		}
-		return true
-	})
-	tb := rb.Calls(false, func(call *ast.CallExpr) bool {
-		se, ok := call.Fun.(*ast.SelectorExpr)
-		return ok && se.Sel.Name == "TruncateBack"
-	})
-	okRb := dec != nil && len(tb) == 1
-	if okRb {
-		// TruncateBack(counter-1) after the decrement: the last kept index is counter-1
-		reached, _ := rb.Reach(dec, nil, nil)
-		after := false
-		for _, n := range reached {
-			if containsNode(n, tb[0]) {
-				after = true
+	// decided by executing rollbackOne for several counter values: afterwards the counter
+	// is one less and the log was truncated back to counter-2 (the entry before the
+	// rejected one) - however the arithmetic is spelled
+	{
+		var counterField types.Object
+		ast.Inspect(rb.Body, func(n ast.Node) bool {
+			if se, ok := n.(*ast.SelectorExpr); ok && rb.FieldKey(se) == "kv/aof.DiskKV.counter" {
+				counterField = rb.Info.ObjectOf(se.Sel)
+			}
+			return true
+		})
+		okRb, det := counterField != nil, ""
+		for _, c0 := range []int64{2, 3, 7, 1000} {
+			if !okRb {
+				break
+			}
+			var truncs []*big.Int
+			pre := func(f *Fn, call *ast.CallExpr) (Val, bool) {
+				if se, ok := ast.Unparen(call.Fun).(*ast.SelectorExpr); ok {
+					if f.FieldKey(se.X) == "kv/aof.DiskKV.logger" || strings.HasSuffix(f.Prov(se.X), ".logger") {
+						return nilVal{}, true
+					}
+				}
+				return nil, false
+			}
+			ext := func(f *Fn, call *ast.CallExpr, recv Val, args []Val) (Val, bool) {
+				if se, ok := ast.Unparen(call.Fun).(*ast.SelectorExpr); ok && se.Sel.Name == "TruncateBack" && f.FieldKey(se.X) == "kv/aof.DiskKV.log" && len(args) == 1 {
+					if v, ok := args[0].(*big.Int); ok {
+						truncs = append(truncs, v)
+						return nilVal{}, true
+					}
+				}
+				return nil, false
+			}
+			_, final, err := rb.EvalFnWith([]Val{objVal{big.NewInt(1)}, nilVal{}}, ext, pre, map[types.Object]Val{counterField: big.NewInt(c0)})
+			if err != nil {
+				c.Failf("rollbackOne not evaluable (undecided): %v", err)
+			}
+			nc, _ := final[counterField].(*big.Int)
+			if nc == nil || nc.Int64() != c0-1 || len(truncs) != 1 || truncs[0].Int64() != c0-2 {
+				okRb = false
+				det = fmt.Sprintf("counter %d: counter afterwards %v, TruncateBack%v", c0, nc, truncs)
 			}
 		}
-		okRb = after && rb.Prov(tb[0].Args[0]) == "(recv.counter-const:1)"
+		c.Ob("rollback", "rollbackOne#truncate-to-counter-1-after-decrement", rb.Decl.Pos(), okRb, "the rejected entry is the last one: afterwards the counter is one less and the log is truncated back to the entry before it; "+det)
 	}
-	c.Ob("rollback", "rollbackOne#truncate-to-counter-1-after-decrement", rb.Decl.Pos(), okRb, "the rejected entry is the last one: counter -= 1, then TruncateBack(counter-1) keeps exactly the entries before it")
 	okResume := false
 	ast.Inspect(replay.Body, func(n ast.Node) bool {
 		if as, ok := n.(*ast.AssignStmt); ok && len(as.Lhs) == 1 && replay.FieldKey(as.Lhs[0]) == "kv/aof.DiskKV.counter" {
@@ -1171,11 +1196,10 @@ func firstString(f *Fn, n ast.Node) string {
 // the success edge of appendLog for that same mutation (write-ahead). Shared by C20 and C21:
 // a mutation applied without a log record is lost (or undone) by the next restart.
 func applyAfterAppend(c *Ctx, rule string) {
-	start := c.Func("kv/aof", "DiskKV", "Start")
-	applies := start.CallsTo(true, "kv/aof.DiskKV.handleMutation")
+	applies := aofWriterSites(c, "kv/aof.DiskKV.handleMutation")
 	c.Floor("writer apply sites", len(applies), 1)
-	for _, call := range applies {
-		g := start.enclosing(call)
+	for _, site := range applies {
+		g, call := site.g, site.call
 		fs := g.FactsAt(call)
 		ok := fs.Has(func(fa *Fact) bool {
 			return fa.Kind == FCallOK && g.IsCall(fa.Call, "kv/aof.DiskKV.appendLog") && len(fa.Call.Args) == 1 && types_ExprString(fa.Call.Args[0]) == types_ExprString(call.Args[0])
